@@ -96,6 +96,7 @@ inductive Prim where
   | captureOk (w : Who)      -- `_capture_exception` ran to completion
   | captureFail (w : Who)    -- `_capture_exception` set `self.exception`, then raised
   | touchBuiltins            -- the process-wide builtins were written (only when `builtinsPrivate` is false)
+  | hitEmpty                 -- marker without effect: `_stop_patches()` / `_current_stdout.pop()` found its stack EMPTY
   | unknown
   deriving DecidableEq, Repr
 
@@ -127,11 +128,20 @@ def depthOs (b : Base) (c : Ctl) : Nat := c.foldl (fun n q => depthO q n) b.o0
 
 def emit (c : Ctl) (q : Prim) : Ctl := c ++ [q]
 
+/-- One primitive step.  Popping a stack that is empty either raises (an internal exception) or does nothing, as
+    probed; both leave the marker `.hitEmpty` in the control state: a ladder that ever does this pops what it did
+    not push, which is only harmless when no other execution is in progress on the sandbox. -/
 def stepPrim (m : MockProbe) (b : Base) (c : Ctl) : Prim → Ctl × Option Who
   | .popStdout =>
-    if depthOs b c = 0 ∧ m.popStdoutEmptyRaises = true then (c, some .internal) else (emit c .popStdout, none)
+    if depthOs b c = 0 then
+      (if m.popStdoutEmptyRaises = true then (emit c .hitEmpty, some .internal)
+       else (emit (emit c .hitEmpty) .popStdout, none))
+    else (emit c .popStdout, none)
   | .stopPatches =>
-    if depthPs b c = 0 ∧ m.stopPatchesEmptyRaises = true then (c, some .internal) else (emit c .stopPatches, none)
+    if depthPs b c = 0 then
+      (if m.stopPatchesEmptyRaises = true then (emit c .hitEmpty, some .internal)
+       else (emit (emit c .hitEmpty) .stopPatches, none))
+    else (emit c .stopPatches, none)
   | q => (emit c q, none)
 
 def stepPrims (m : MockProbe) (b : Base) (c : Ctl) : List Prim → Ctl × Option Who
@@ -348,6 +358,7 @@ def applyPrim (env : Env) (s : St) : Prim → St
   | .captureOk w => { s with exception := some (env.reported w), feedbacks := s.feedbacks ++ [env.mkFb w] }
   | .captureFail w => { s with exception := some (env.reported w) }
   | .touchBuiltins => { s with g := { s.g with builtins := s.fresh }, fresh := s.fresh + 1 }
+  | .hitEmpty => s
   | .unknown => s
 
 def applyPrims (env : Env) (s : St) (qs : List Prim) : St := qs.foldl (applyPrim env) s
@@ -440,6 +451,54 @@ def runOps (cfg : Cfg) (s : St) : List Op → St
   | [] => s
   | op :: ops => runOps cfg (stepOp cfg s op).1 ops
 
+/-! ## Executions nested in one another
+
+`_current_patches` / `_current_stdout` are stacks because an execution can be started on a sandbox while another
+one is in progress on it: the running student code calls `input()` and the instructor's input callable runs
+`sandbox.evaluate(...)`, or it calls a function the instructor mocked in that runs `sandbox.call(...)`.
+The nested executions happen while the outer execution's `exec` step is in progress. -/
+
+/-- Data layer of an execution whose running code starts other executions: `inner` is what those do to the
+    sandbox, applied when the `exec` step is reached (a compile failure never reaches it). -/
+def applyPrimN (env : Env) (inner : St → St) (s : St) : Prim → St
+  | .exec traced => applyPrim env (inner s) (.exec traced)
+  | q => applyPrim env s q
+
+def applyPrimsN (env : Env) (inner : St → St) (s : St) (qs : List Prim) : St := qs.foldl (applyPrimN env inner) s
+
+/-- `Sandbox._execute` started in ANY state of the stacks (`baseOf s`), with nested executions `inner`. -/
+def executeN (cfg : Cfg) (style : TraceStyle) (nested : Bool) (s : St) (t : Termination) (inject : Bool)
+    (inner : St → St) : St × Outcome :=
+  let r := plan cfg.probe (baseOf s) (sigOf cfg t inject) cfg.exec
+  (applyPrimsN (envOf cfg style nested t) inner s r.1, r.2)
+
+def stepOpN (cfg : Cfg) (s : St) (op : Op) (inner : St → St) : St × Outcome × Ret :=
+  match op.entry with
+  | .call false => ({ s with exception := some noFunctionCls }, .returned, .exceptionValue)
+  | .run =>
+    let r := executeN cfg op.style op.nested s op.term op.inject inner
+    (r.1, r.2, if r.2 = .returned then .sandbox else .none)
+  | _ =>
+    let r := executeN cfg op.style op.nested s op.term op.inject inner
+    (r.1, r.2, if r.2 = .returned then handleResult r.1 else .none)
+
+/-- An execution together with the executions its running code starts on the same sandbox, in order. -/
+inductive NOp where
+  | mk (op : Op) (inner : List NOp)
+
+mutual
+/-- Run an execution and everything nested in it. -/
+def runN (cfg : Cfg) : NOp → St → St
+  | .mk op inner, s => (stepOpN cfg s op (runNs cfg inner)).1
+/-- Run executions one after the other. -/
+def runNs (cfg : Cfg) : List NOp → St → St
+  | [], s => s
+  | n :: ns, s => runNs cfg ns (runN cfg n s)
+end
+
+/-- A history of top-level executions, each with its nested ones. -/
+def runHistN (cfg : Cfg) (s : St) (ns : List NOp) : St := runNs cfg ns s
+
 /-! ## Wire format (driver) -/
 
 namespace Wire
@@ -450,6 +509,7 @@ def decNat (tok : String) : Option Nat := tok.toNat?
 def decHazard : String → Option Hazard
   | "str" => some .strRaises | "repr" => some .reprRaises | "attrR" => some .attrReadRaises
   | "attrW" => some .attrWriteRaises | "synNoLine" => some .synNoLine | "synNoSource" => some .synNoSource
+  | "truth" => some .truthRaises | "attrM" => some .attrMissingRaises
   | _ => none
 
 def decFileKind : String → Option FileKind
@@ -546,6 +606,77 @@ def handleHist (ts : List String) : String :=
     | some n =>
       match takeN decOp n ts with
       | some (ops, []) => String.intercalate " ; " (runObserved genCfg St.init ops)
+      | _ => "bad-request"
+  | _ => "bad-request"
+
+/-- The state in which the executions nested in `op` start: just before the outer `exec` step
+    (`none`: the outer execution never reaches it). -/
+def statePre (cfg : Cfg) (s : St) (op : Op) : Option St :=
+  if op.executes then
+    let r := plan cfg.probe (baseOf s) (sigOf cfg op.term op.inject) cfg.exec
+    let isExec : Prim → Bool := fun q => match q with
+      | .exec _ => true
+      | _ => false
+    if r.1.any isExec then
+      some (applyPrims (envOf cfg op.style op.nested op.term) s (r.1.takeWhile (fun q => !isExec q)))
+    else none
+  else none
+
+/-- Observation of a nested execution: like `observe`, the stack depths RELATIVE to those it started with. -/
+def observeRel (before after : St) (out : Outcome) (ret : Ret) : String :=
+  let newFbs := after.feedbacks.drop before.feedbacks.length
+  let fbs := String.intercalate "|" (newFbs.map encFb)
+  let dp : Int := (after.patches.length : Int) - before.patches.length
+  let dO : Int := (after.stdouts.length : Int) - before.stdouts.length
+  s!"{encOutcome out} rk={encRet ret} exc={encOptStr after.exception} nfb={newFbs.length} fb={fbs} " ++
+  s!"stdout={encBool (after.g.stdout == before.g.stdout)} sleep={encBool (after.g.sleep == before.g.sleep)} " ++
+  s!"mods={encBool (after.g.modules == before.g.modules)} trace={encBool (after.g.trace == before.g.trace)} " ++
+  s!"bi={encBool (after.g.builtins == before.g.builtins)} dp={dp} do={dO}"
+
+mutual
+/-- Observations of an execution and of everything nested in it, pre-order (`top`: a top-level execution). -/
+def observedN (cfg : Cfg) (top : Bool) : NOp → St → List String
+  | .mk op inner, s =>
+    let r := stepOpN cfg s op (runNs cfg inner)
+    let own := if top then observe s r.1 r.2.1 r.2.2 else observeRel s r.1 r.2.1 r.2.2
+    match statePre cfg s op with
+    | some s0 => own :: observedNs cfg false inner s0
+    | none => [own]
+def observedNs (cfg : Cfg) (top : Bool) : List NOp → St → List String
+  | [], _ => []
+  | n :: ns, s => observedN cfg top n s ++ observedNs cfg top ns (runN cfg n s)
+end
+
+mutual
+/-- `<op> <k> <nested op>*k` -/
+def decNOp : Nat → List String → Option (NOp × List String)
+  | 0, _ => none
+  | fuel + 1, ts => do
+    let (op, ts) ← decOp ts
+    match ts with
+    | k :: ts => do
+      let k ← decNat k
+      let (inner, ts) ← decNOps fuel k ts
+      pure (.mk op inner, ts)
+    | [] => none
+def decNOps : Nat → Nat → List String → Option (List NOp × List String)
+  | 0, _, _ => none
+  | _ + 1, 0, ts => some ([], ts)
+  | fuel + 1, k + 1, ts => do
+    let (n, ts) ← decNOp fuel ts
+    let (ns, ts) ← decNOps fuel k ts
+    pure (n :: ns, ts)
+end
+
+/-- `nhist <n> nop…` → observations (pre-order) joined by ` ; `. -/
+def handleNHist (ts : List String) : String :=
+  match ts with
+  | n :: ts =>
+    match decNat n with
+    | none => "bad-request"
+    | some n =>
+      match decNOps (ts.length + 2) n ts with
+      | some (ns, []) => String.intercalate " ; " (observedNs genCfg true ns St.init)
       | _ => "bad-request"
   | _ => "bad-request"
 
